@@ -142,6 +142,42 @@ fn settings_histories(run: &mut Run, rng: &mut Rng, dir: &std::path::Path) {
     if let Ok(a) = sign(&cc::base_settings(), "image/jpeg", &jpg, None, false) {
         assets.push(("signed-ephemeral".into(), "image/jpeg".into(), a));
     }
+    // every "odd" class, read AFTER other reads / signs on this thread and compared with a fresh
+    // process (Err classes included): pre-1.0 data, legacy / v1 claims, unsupported type, remote
+    // manifest references, no manifest, damaged / tampered stores
+    let n_regular = assets.len();
+    for (name, fmt) in [
+        ("prerelease.jpg", "image/jpeg"),
+        ("legacy.mp4", "video/mp4"),
+        ("legacy_ingredient_hash.jpg", "image/jpeg"),
+        ("adobe-20220124-E-clm-CAICAI.jpg", "image/jpeg"),
+        ("unsupported_type.txt", "text/plain"),
+        ("cloud.jpg", "image/jpeg"),
+        ("cloudx.jpg", "image/jpeg"),
+        ("no_manifest.jpg", "image/jpeg"),
+        ("XCA.jpg", "image/jpeg"),
+        ("E-sig-CA.jpg", "image/jpeg"),
+        ("CIE-sig-CA.jpg", "image/jpeg"),
+        ("CACAE-uri-CA.jpg", "image/jpeg"),
+        ("boxhash.jpg", "image/jpeg"),
+    ] {
+        if let Ok(d) = std::fs::read(fixtures().join(name)) {
+            if d.len() <= 1_500_000 {
+                assets.push((name.to_string(), fmt.into(), d));
+            }
+        }
+    }
+    if let Ok(d) = std::fs::read(fixtures().join("CA.jpg")) {
+        assets.push(("CA.jpg-truncated".into(), "image/jpeg".into(), d[..d.len() * 2 / 3].to_vec()));
+        let mut f = d.clone();
+        if let Some(k) = f.windows(4).position(|w| w == b"jumb") {
+            for b in f.iter_mut().skip(k + 200).take(8) {
+                *b ^= 0x5a;
+            }
+        }
+        assets.push(("CA.jpg-damaged-store".into(), "image/jpeg".into(), f));
+    }
+    run.notes.push(format!("settings histories: {} regular + {} odd assets", n_regular, assets.len() - n_regular));
     let variants = cc::variants();
     let valid = variants.iter().all(|(_, s)| Settings::new().with_json(s).is_ok());
     run.obligations.insert("settings-variants-are-valid-settings".to_string(), valid);
@@ -155,20 +191,25 @@ fn settings_histories(run: &mut Run, rng: &mut Rng, dir: &std::path::Path) {
         })
         .collect();
     let mut reference: std::collections::HashMap<(usize, usize), String> = std::collections::HashMap::new();
-    let steps = if run.thorough() { 700 } else { 120 };
+    let steps = if run.thorough() { 900 } else { 200 };
     let mut prev: Option<(usize, usize)> = None;
     let mut distinct_outcomes: std::collections::HashSet<String> = std::collections::HashSet::new();
     let mut compared = 0usize;
-    for step in 0..steps {
+    // a sweep first, then random steps: the sweep reads EVERY odd asset right after a regular one
+    let sweep: Vec<(usize, usize)> = (n_regular..assets.len()).flat_map(|o| [((o - n_regular) % n_regular.max(1), 0usize), (o, 0usize)]).collect();
+    for step in 0..steps + sweep.len() {
         if assets.is_empty() {
             break;
         }
         // stay on the same asset most of the time so that consecutive reads differ in ONE setting
         let a = match prev {
-            Some((a, _)) if rng.chance(3, 4) => a,
-            _ => rng.below(assets.len() as u64) as usize,
+            Some((a, _)) if rng.chance(1, 2) => a,
+            // an odd asset right after a regular one (whose manifest loaded successfully) and back
+            Some((a, _)) if a < n_regular && assets.len() > n_regular => n_regular + rng.below((assets.len() - n_regular) as u64) as usize,
+            _ => rng.below(n_regular.max(1) as u64) as usize,
         };
         let v = rng.below(variants.len() as u64) as usize;
+        let (a, v) = if step < sweep.len() { sweep[step] } else { (a, v) };
         let (name, fmt, data) = &assets[a];
         let got = report_with(&variants[v].1, fmt, data);
         let want = reference.entry((a, v)).or_insert_with(|| child(&["report2", variants[v].0, fmt, &paths[a].to_string_lossy()])).clone();
@@ -474,7 +515,7 @@ fn witnesses(run: &mut Run) {
 }
 
 pub fn run(run: &mut Run, rng: &mut Rng) {
-    run.rule = "(1) one process executes a random sequence (quick 14, thorough 60 steps) of sign (plain / with ingredient / through archive save+restore), read of fixtures with failures, legacy thread-local settings writes and context settings variations; every produced asset is read right after creation, again at the end, and in a fresh process (child `report`), and the canonical reports compared; the same source is signed at the start and at the end and the abstracted reports compared. (2) 120 / 700 reads on one thread of 5 assets under 11 settings variants (each trust setting separately), each compared with a fresh-process read of the same bytes under the same settings; non-trivial = consecutive reads of the same asset under different variants. (3) witness replays. (4) model history cases over real contexts".to_string();
+    run.rule = "(1) one process executes a random sequence (quick 14, thorough 60 steps) of sign (plain / with ingredient / through archive save+restore), read of fixtures with failures, legacy thread-local settings writes and context settings variations; every produced asset is read right after creation, again at the end, and in a fresh process (child `report`), and the canonical reports compared; the same source is signed at the start and at the end and the abstracted reports compared. (2) 200 / 900 reads on one thread of 5 regular + ~15 odd assets (pre-1.0, legacy, unsupported type, remote manifest, no manifest, damaged) under 11 settings variants (each trust setting separately), odd assets read right after successful loads; Err classes compared too, each compared with a fresh-process read of the same bytes under the same settings; non-trivial = consecutive reads of the same asset under different variants. (3) witness replays. (4) model history cases over real contexts".to_string();
     let dir = scratch("c38");
     let sources: Vec<(String, Vec<u8>)> = unsigned_sources()
         .into_iter()
